@@ -111,7 +111,7 @@ func genC14(r *vh.Runner) {
 	}
 	r.Case("exh/complete", nil, func(c *vh.Case) { r.Count("exhaustive_spaces_completed", 1) })
 
-	nWalks := r.Pick(64, 4000)
+	nWalks := r.Pick(64, 16000)
 	steps := r.Pick(20000, 100000)
 	for i := 0; i < nWalks; i++ {
 		r.Case(fmt.Sprintf("walk/%d", i), map[string]any{"walk": i, "steps": steps}, func(c *vh.Case) {
